@@ -366,6 +366,19 @@ def witness_search(tier, seed):
             exact = Fraction(x) if not isinstance(x, str) else Fraction(x)
             if b.denominator not in (1, 2, 3, 4, 6, 8, 12, 16, 24, 48) or abs(b - exact) > Fraction(1, 96):
                 return dict(input=f"Beat({x!r})", detail=f"got {b!r}")
+    # inexact spellings of exact small-denominator values (binary-exact floats, terminating decimals): n / d for d up to 256
+    for d in (2, 4, 5, 8, 10, 16, 20, 25, 32, 40, 50, 64, 100, 125, 128, 192, 200, 256):
+        for n in range(-2 * d, 4 * d + 1):
+            q = Fraction(n, d)
+            dec = Decimal(q.numerator) / Decimal(q.denominator)
+            if Fraction(dec) != q:
+                continue
+            for x in (float(q), dec, str(dec)):
+                if Fraction(x) != q:
+                    continue
+                b = Beat(x)
+                if b.denominator not in (1, 2, 3, 4, 6, 8, 12, 16, 24, 48) or abs(b - q) > Fraction(1, 96):
+                    return dict(input=f"Beat({x!r})", detail=f"got {b!r}: not the nearest multiple of 1/48")
     for x in (3, Fraction(7, 5), Beat(1, 7)):
         if Beat(x) != x or Beat(22, 7) != Fraction(22, 7):
             return dict(input=f"Beat({x!r})", detail="not exact")
